@@ -5,6 +5,7 @@
 //!   mrl-verif <Cxx> --replay <file>           re-execute a recorded violating case
 //!   mrl-verif __shard ...                     internal worker entry point
 
+mod capalloc;
 mod damage;
 mod gen;
 mod image;
@@ -20,6 +21,9 @@ use std::os::unix::process::CommandExt;
 use std::path::PathBuf;
 
 use runner::Tier;
+
+#[global_allocator]
+static GLOBAL: capalloc::CapAlloc = capalloc::CapAlloc;
 
 fn ensure_shim() {
     if shim::present() {
